@@ -55,6 +55,9 @@ impl F {
     /// f64::EPSILON: a small positive number
     #[verifier::external_body]
     pub fn epsilon() -> (r: F) ensures 0real < r@ < 0.000000000000001real { unimplemented!() }
+    /// f32::EPSILON widened to f64: 2^-23 exactly
+    #[verifier::external_body]
+    pub fn epsilon32() -> (r: F) ensures r@ == 0.00000011920928955078125real { unimplemented!() }
     #[verifier::external_body]
     pub fn min_value() -> (r: F) ensures r@ == f64_min_r(), r@ < -1000000000000real { unimplemented!() }
     #[verifier::external_body]
